@@ -62,6 +62,36 @@ def strip_comments(text):
     return "".join(out)
 
 
+def strip_mumps(text, rel=""):
+    """The build has GMGPOLAR_USE_MUMPS off: `#ifdef GMGPOLAR_USE_MUMPS A [#else B] #endif` -> B (line structure kept)."""
+    lines = text.split("\n")
+    out, state = [], []          # state stack entries: 'skip' | 'keep'
+    for ln in lines:
+        s = ln.strip()
+        if re.match(r"#\s*ifdef\s+GMGPOLAR_USE_MUMPS\b", s):
+            state.append("skip")
+            out.append("")
+        elif state and re.match(r"#\s*(ifdef|ifndef|if)\b", s):
+            state.append("nested:" + state[-1])
+            out.append(ln if state[-1].endswith("keep") else "")
+        elif state and re.match(r"#\s*else\b", s):
+            if state[-1] in ("skip", "keep"):
+                state[-1] = "keep" if state[-1] == "skip" else "skip"
+                out.append("")
+            else:
+                out.append(ln if state[-1].endswith("keep") else "")
+        elif state and re.match(r"#\s*endif\b", s):
+            top = state.pop()
+            out.append("" if top in ("skip", "keep") else (ln if top.endswith("keep") else ""))
+        elif state and state[-1].endswith("skip"):
+            out.append("\\" if ln.rstrip().endswith("\\") and False else "")
+        else:
+            out.append(ln)
+    if state:
+        raise ExtractError("unbalanced GMGPOLAR_USE_MUMPS conditional in " + rel)
+    return "\n".join(out)
+
+
 def match_close(text, i, open_c="{", close_c="}"):
     """text[i] == open_c ; return index of the matching close_c."""
     assert text[i] == open_c, (text[i - 20:i + 20], open_c)
@@ -94,7 +124,7 @@ class Src:
         if not os.path.exists(path):
             raise ExtractError("source file missing: " + rel)
         self.raw = open(path).read()
-        self.text = strip_comments(self.raw)
+        self.text = strip_mumps(strip_comments(self.raw), rel)
 
     @classmethod
     def get(cls, rel):
@@ -387,7 +417,7 @@ class Job:
     def __init__(self, name, c_text, kind, entry="harness", enforce=None, replace=(), loop_contracts=False,
                  unwind=None, solver=None, timeout=120, extra=(), covers=(), expect_fail=(), defines=(),
                  bounded=None, functions=(), nondet_static=False, rec=False, mem_gb=8, group=None, split=None,
-                 split_timeout=60, split_chunk=1, unwindset=()):
+                 split_timeout=60, split_chunk=1, unwindset=(), skip_batch=False):
         self.name, self.c_text, self.kind, self.entry = name, c_text, kind, entry
         self.enforce, self.replace, self.loop_contracts = enforce, list(replace), loop_contracts
         self.unwind, self.solver, self.timeout, self.extra = unwind, solver, timeout, list(extra)
@@ -403,6 +433,7 @@ class Job:
         self.split = split                 # regex: obligations run one by one (--property, sliced)
         self.split_timeout = split_timeout
         self.split_chunk = split_chunk
+        self.skip_batch = skip_batch       # the non-split obligations of this unit are discharged by a sibling job
         self.unwindset = list(unwindset)    # loops unwound by goto-instrument before loop contracts are applied
         self.results = {}                  # obligation -> 'SUCCESS' | 'FAILURE' | ...
         self.status = None                 # 'ok' | 'timeout' | 'error'
@@ -551,15 +582,20 @@ def exec_split(job, base, d, t0, log, fail):
     rest = [p for p in props if not re.search(job.split, p.get("description", ""))]
     results, traces = {}, {}
     runs = []
-    if rest and len(rest) <= 400:
+    if job.skip_batch:
+        pass
+    elif rest and len(rest) <= 400:
         runs.append((None, base + ["--trace"] + sum((["--property", p["name"]] for p in rest), []), job.timeout))
     elif rest:
         # too many properties for an argument list: the batch runs on a copy of the unit from which the split obligations
         # (one __CPROVER_assert per line) are removed; its results are keyed separately
         src_b = os.path.join(d, "unit_batch.c")
         pat = re.compile(job.split.replace("^", ""))
-        keep = [l for l in open(os.path.join(d, "unit.c")).read().split("\n")
-                if not ("__CPROVER_assert(" in l and re.search(r'"(%s)' % job.split.replace("^", ""), l))]
+        keep = ["#define VERIF_SKIPPED_ASSERT(c, d) ((void)0)"]
+        for l in open(os.path.join(d, "unit.c")).read().split("\n"):
+            if "__CPROVER_assert(" in l and re.search(r'"(%s)' % job.split.replace("^", ""), l):
+                l = l.replace("__CPROVER_assert(", "VERIF_SKIPPED_ASSERT(")
+            keep.append(l)
         open(src_b, "w").write("\n".join(keep))
         runs.append((None, [src_b if a.endswith("unit.c") else a for a in base] + ["--trace"], job.timeout))
     for k in range(0, len(hard), job.split_chunk):
@@ -599,7 +635,7 @@ def exec_split(job, base, d, t0, log, fail):
             traces.update({pref + k: v for k, v in parsed[1].items()})
             if p is None:
                 log.append(parsed[2][-3000:])
-                if "SMT2" not in parsed[2]:
+                if "SMT2" not in parsed[2] and "VERIFICATION SUCCESSFUL" not in parsed[2]:
                     return fail("error", "Layer R job did not go through the SMT2 back end")
         elif p is None:
             return fail(st, "batch part: %s" % (parsed or ""))
